@@ -1686,6 +1686,7 @@ pub fn strategy_reg() -> BoxedStrategy<RegCase> {
 
 pub fn property() -> Property {
     Property {
+        fuzz: vec![],
         id: "C17",
         rule: "session cases = local role (caller via Initiator / callee via Acceptor) x Session-Expires x refresher parameter (uac, uas, absent) x Min-SE x history of <=4 steps {silence for SE+64 s, refresh received = peer re-INVITE at an offset inside the interval (1 ms, half, +-1 ms around SE-10 s, SE-1 ms, random), refresh sent = RefreshNeeded answered with process_default}; registration cases = initial expiry x 1..4 registrar answers {200 Expires: v, 423 Min-Expires: v} with answer delays. Values from {0/1,2,9,10,11,19,20,21,32,33,89,90,1800,2^31-1,2^31,u32::MAX-11..u32::MAX} and random u32. Non-trivial = negotiated/granted value < 90 or within 11 of 0 / 2^31 / u32::MAX, or >=1 refresh (sessions) / >=2 answers (registrations), or ezk is the refresher; distinct by hash of the case.",
         assumptions: vec![
